@@ -1,5 +1,6 @@
 (* C06 - truncated input is reported as insufficient data at every cut point.  Statements only. *)
-From PV Require Import Base.Bytes Model.Proc Model.Types Model.Enc Model.Dec Proofs.ProcSim Proofs.DecStream Proofs.TableFacts.
+From PV Require Import Base.Bytes Model.Proc Model.Types Model.Enc Model.Dec Proofs.ProcSim Proofs.DecStream Proofs.TableFacts
+     Model.TableTypes Gen.Tables Proofs.RoundTrip2 Proofs.StreamStage2.
 Local Open Scope nat_scope.
 
 (* Generic: a decoder that never looks at the end of its input, and that decodes e completely,
@@ -43,3 +44,23 @@ Example C06_nonvacuous :
   decode_with BER 20 (Some TInt) [2%N; 2%N; 1%N; 5%N] = Ok (DV TInt (VInt 261), [])
   /\ decode_with BER 20 (Some TInt) [2%N; 2%N; 1%N] = Err EEndOfStream.
 Proof. split; vm_compute; reflexivity. Qed.
+
+(* Unconditional, for every input: every strict prefix of the encoding of any stage-2 value is reported as
+   insufficient data - end-of-stream on a closed input, a suspension asking for more octets than are
+   there on an open one - at EVERY cut point *)
+Theorem C06_stage2_every_cut : forall T v b fuel k,
+  stage2_ty T = true -> stage2_val T v = true ->
+  encode BER true 0 T v = Ok b -> (N.of_nat (length b) <= index_max)%N ->
+  (length b + ty_depth T <= fuel)%nat -> (k < length b)%nat ->
+  decode_with BER fuel (Some T) (firstn k b) = Err EEndOfStream
+  /\ exists n kont s1, resume (dec_item BER fuel (Some T)) (mkStream (firstn k b) 0 false 0) = inl (ReadN n kont, s1)
+                       /\ (length (avail s1) < n)%nat.
+Proof. exact c06_stage2_prefix. Qed.
+Print Assumptions C06_stage2_every_cut.
+
+Example C06_stage2_every_cut_nonvacuous :
+  forallb (fun k => match decode_with BER 60 (Some stage2_example_ty) (firstn k stage2_example_enc) with
+                    | Err EEndOfStream => true | _ => false end
+                    && match resume (dec_item BER 60 (Some stage2_example_ty)) (mkStream (firstn k stage2_example_enc) 0 false 0) with
+                       | inl (ReadN _ _, _) => true | _ => false end) (seq 0 50) = true.
+Proof. exact c06_example. Qed.
